@@ -327,7 +327,7 @@ impl Prop for C20 {
             let inp = gen_input(&mut ch, &c.ag, 8, &[3, 3, 1]);
             inputs.push(inp.iter().map(|t| c.ag.tokens[*t].clone()).collect());
         }
-        let text = if c.entry == 1 { c.text[crate::props::c10::header_for(c.kind).len()..].to_string() } else { c.text };
+        let text = c.body().to_string();
         serde_json::to_value(Case {
             family: if inflated { "inflated".into() } else { "small".into() },
             n: 0,
